@@ -37,10 +37,14 @@ PLANS = {
     "C05": dict(
         mcgen=[dict(model="MC_Parse", quick="MC_Parse_quick.cfg", thorough="MC_Parse_thorough.cfg")],
         drive=True,
+        bounds=dict(quick=dict(exhaustive_domain="every string of length <= 6 over {0,1,7,+,-,.,e,E,_,x,space}: 1 948 717 strings, model-checked (grammar vs mechanism), every numeral replayed, every accepted/panicking string validated", sampled="numerals to 1200 digits, exponents 2^63 +- 3, mutations"),
+                    thorough=dict(exhaustive_domain="every string of length <= 7 over the same alphabet: 21 435 888 strings", sampled="numerals to 5000 digits")),
     ),
     "C06": dict(
         mcgen=[dict(model="MC_Round", quick="MC_Round_quick.cfg", thorough="MC_Round_thorough.cfg")],
         drive=True,
+        bounds=dict(quick=dict(model_checked="|unscaled| <= 1200 x scales -3..8 x targets within 4 of either end x 7 modes", replayed_on_crate="|unscaled| <= 300, same scales/targets/modes, exhaustively", not_reached="the property's |unscaled| < 10^5"),
+                    thorough=dict(model_checked="|unscaled| <= 30000", replayed_on_crate="|unscaled| <= 2000 exhaustively", not_reached="30000 < |unscaled| < 10^5")),
     ),
     "C07": dict(
         mcgen=[dict(model="MC_Round", quick="MC_Round_quick.cfg", thorough="MC_Round_thorough.cfg")],
@@ -54,7 +58,9 @@ PLANS = {
     "C11": dict(drive=True, mcgen=[dict(model="MC_Roots", quick="MC_Roots_quick.cfg", thorough="MC_Roots_thorough.cfg")]),
     "C12": dict(drive=True, shard=1500, mcgen=[dict(model="MC_Roots", quick="MC_Roots_quick.cfg", thorough="MC_Roots_thorough.cfg")]),
     "C13": dict(drive=True, mc=[dict(model="MC_Exp", quick="MC_Exp.cfg", workers=6)]),
-    "C14": dict(drive=True, shard=700, mc=[dict(model="MC_Floats", quick="MC_Floats.cfg")]),
+    "C14": dict(drive=True, shard=700, mc=[dict(model="MC_Floats", quick="MC_Floats.cfg")],
+                bounds=dict(quick=dict(model_checked="all 65536 binary16 patterns (decoder generic in the field widths)", not_reached="the exhaustive sweep of all 2^32 binary32 patterns: stratified sample (every exponent field x boundary / few-bit / random mantissas x both signs)"),
+                            thorough=dict(model_checked="all 65536 binary16 patterns", not_reached="the exhaustive 2^32 binary32 sweep (about 4*10^9 events at 30 events/s/JVM)"))),
     "C15": dict(drive=True, mc=[dict(model="MC_Floats", quick="MC_Floats.cfg")]),
     "C16": dict(
         mcgen=[dict(model="MC_Round", quick="MC_Round_quick.cfg", thorough="MC_Round_thorough.cfg"),
